@@ -94,9 +94,9 @@ PROPS["C05"] = doc_prop(
 
 PROPS["C07"] = doc_prop(
     "C07",
-    quick=[bfs("MC_C07", "C07_quick")],
-    thorough=[bfs("MC_C07", "C07_thorough")],
-    sample_quick=16000, sample_thorough=400000,
+    quick=[bfs("MC_C07", "C07_quick"), sim("MC_C07", "C07_sim", 1500, 12)],
+    thorough=[bfs("MC_C07", "C07_thorough"), sim("MC_C07", "C07_sim", 20000, 12)],
+    sample_quick=24000, sample_thorough=500000,
     rule="cases = all nestings of ul/ol/li/blockquote/pre up to the bound with kept/dropped leaves; "
          "non-trivial = a retained word has a non-empty nest chain",
     nontrivial_key="chain_kept", small=4,
@@ -105,9 +105,9 @@ PROPS["C07"] = doc_prop(
 
 PROPS["C08"] = doc_prop(
     "C08",
-    quick=[bfs("MC_C08", "C08_quick")],
-    thorough=[bfs("MC_C08", "C08_thorough")],
-    sample_quick=16000, sample_thorough=400000,
+    quick=[bfs("MC_C08", "C08_quick"), sim("MC_C08", "C08_sim", 1500, 12)],
+    thorough=[bfs("MC_C08", "C08_thorough"), sim("MC_C08", "C08_sim", 20000, 12)],
+    sample_quick=24000, sample_thorough=500000,
     rule="cases = all interleavings of kept/dropped text with media up to the bound; "
          "non-trivial = the page had media and both retained and dropped text",
     nontrivial_key="media_mixed", small=4,
